@@ -313,7 +313,8 @@ Definition scale_lam (h sc z : R) : R := (1 / sc - 1) / h * z + (1 / sc * (1 / 2
 Lemma ex_scale_lam h (sc : RV2) (p : RV3) :
   @ex_scale ROps h sc p = mkV2 (wx p * scale_lam h (vx sc) (wz p)) (wy p * scale_lam h (vy sc) (wz p)).
 Proof.
-  unfold ex_scale, scale_lam, v2mul, v2add, v2muls, v2adds, v2divs, v2sub. cbn [vx vy]. rewrite k05_half. reflexivity.
+  unfold ex_scale, scale_lam, v2mul, v2add, v2muls, v2adds, v2divs, v2sub. cbn [vx vy]. rewrite k05_half.
+  cbn. f_equal; unfold Rdiv; ring.
 Qed.
 Lemma scale_lam_ends h sc : h <> 0 -> sc <> 0 ->
   scale_lam h sc (- (h / 2)) = 1 /\ scale_lam h sc (h / 2) = 1 / sc /\
@@ -404,7 +405,8 @@ Proof.
   rewrite Hh. split; [reflexivity|]. intros I. apply rounded_combine_inside in I; lra.
 Qed.
 
-Definition loft_mix (sh z : R) : R := @clamp ROps (1 / 2 * z / sh + 1 / 2) 0 1.
+(* the mix factor; with height = 2*round there is no straight part (sh = 0) and it is 1/2 *)
+Definition loft_mix (sh z : R) : R := if Reqb sh 0 then 1 / 2 else @clamp ROps (1 / 2 * z / sh + 1 / 2) 0 1.
 Theorem loft_sem (s0 s1 : RObj2) (o : RObj3) h r : k_loft s0 s1 h r = Some o ->
   0 <= r /\ 2 * r <= h /\ 0 < h /\
   forall p, let sh := h / 2 - r in let k := loft_mix sh (wz p) in
@@ -428,6 +430,7 @@ Theorem loft_mix_ends sh z : 0 < sh ->
   (- sh <= z <= sh -> loft_mix sh z = (z + sh) / (2 * sh)).
 Proof.
   intros S. unfold loft_mix, clamp. change (oltb ROps) with Rltb.
+  destruct (Reqb sh 0) eqn:Z; [apply Reqb_true in Z; lra|].
   assert (E : 1 / 2 * z / sh + 1 / 2 = (z + sh) / (2 * sh)) by (field; lra). rewrite E.
   assert (Q : forall c, (z + sh) / (2 * sh) < c <-> z + sh < c * (2 * sh)).
   { intros c. split; intros Hc.
